@@ -208,6 +208,8 @@ def run_case(case, exe, workdir, fault=None, timeout=TIMEOUT, env_base=None):
                 report["fn"] = w[3] if len(w) > 3 else ""
             elif w[0] == "bt":
                 report["bt"] = w[1:]
+            elif w[0] == "post":
+                report["post"] = int(w[1])
             elif w[0] == "exit":
                 report["exit"] = int(w[1])
     res["report"] = report
@@ -245,3 +247,405 @@ def resolve_bt(exe, addrs):
     for a in addrs:
         out.extend(_A2L[(str(exe), a)])
     return out
+
+
+# ------------------------------------------------------------------------------------------------ cases
+def regular_count(files):
+    return len(files)
+
+
+def tar_entry_count(files):
+    dirs = set()
+    for name, _ in files:
+        parts = name.split("/")[:-1]
+        for i in range(len(parts)):
+            dirs.add("/".join(parts[:i + 1]))
+    return len(dirs) + len(files) + 2
+
+
+def gen_cases(ctx, d, rng, tools, scale=1, jobs="1"):
+    """inputs under d; returns list of Case.  Model configuration: (tool, flags, nfiles, sparseTails)."""
+    d = Path(d)
+    files = file_set(rng, scale)
+    T = d / "tree"
+    make_tree(T, files)
+    make_packfile(T, files)
+    make_tar(d / "in.tar", files)
+    nreg = regular_count(files)
+    sparse = sum(1 for _, b in files if b and (len(b) % BS) and not any(b[len(b) - (len(b) % BS):]))
+    common = ["-b", str(BS), "-j", jobs]
+    cases = [
+        Case("gen-F", "gensquashfs", ["-F", str(T / "pack.txt"), "-D", str(T), "-A", str(T / "xattr.txt"), "-S", str(T / "sort.txt")]
+             + common + ["-e", "@OUT@"], "file", None, model=("gen", "xopde", nreg, sparse)),
+        Case("gen-D", "gensquashfs", ["-D", str(T)] + common + ["@OUT@"], "file", None, model=("gen", "d", nreg, sparse)),
+        Case("t2s", "tar2sqfs", common + ["-e", "@OUT@"], "file", None, stdin=str(d / "in.tar"),
+             model=("t2s", "e", tar_entry_count(files), sparse)),
+    ]
+    # 512 directories + root = 513 inodes: the root's export-table slot is the first one beyond the initial
+    # capacity of 512 entries, so add_export_table_entry has to grow the table inside write_export_table
+    M = d / "many"
+    M.mkdir()
+    (M / "pack.txt").write_text("".join("dir m%04d 0755 0 0\n" % i for i in range(512)))
+    cases.append(Case("gen-many", "gensquashfs", ["-F", str(M / "pack.txt"), "-j", jobs, "-e", "-q", "@OUT@"], "file", None,
+                      model=("gen", "peq", 0, 0)))
+    # an image for the readers, made by the (fault-free) packer built from the same tree
+    img = d / "img.sqfs"
+    r = vlib.sh([str(tools["gensquashfs"]), "-F", str(T / "pack.txt"), "-D", str(T), "-A", str(T / "xattr.txt"), "-b", str(BS), "-j", "1",
+                 "-e", "-q", str(img)], env=ctx.san_env(), timeout=120, stdout=subprocess.DEVNULL)
+    if r.returncode != 0:
+        raise vlib.CheckFailure("cannot build the reader image: " + r.stderr[-1000:])
+    cases += [
+        Case("s2t", "sqfs2tar", [str(img)], "stdout", None),
+        Case("s2t-gz", "sqfs2tar", ["-c", "gzip", str(img)], "stdout", None),
+        Case("rd-u", "rdsquashfs", ["-u", "/", "-p", "@OUT@", str(img)], "tree", None),
+        Case("rd-c", "rdsquashfs", ["-c", "big1.bin", str(img)], "stdout", None),
+    ]
+    return cases
+
+
+# ------------------------------------------------------------------------------------------------ fault → model site
+FIN_MSGS = [("Waiting for remaining data blocks...", "waiting"), ("Writing inodes and directories...", "inodes"),
+            ("Writing fragment table...", "fragtbl"), ("Writing export table...", "exporttbl"),
+            ("Writing ID table...", "idtbl"), ("Writing extended attributes...", "xattrs")]
+INIT_CALLEES = {"compressor_cfg_init_options": "compCfg", "sqfs_file_open": "openOut", "parse_fstree_defaults": "fsDefaults",
+                "fstree_init": "fstreeInit", "sqfs_compressor_create": "cmpCreate", "sqfs_super_init": "superInit",
+                "sqfs_super_write": "superWrite", "sqfs_generic_write_options": "cmpOptions", "sqfs_block_writer_create": "blkwrCreate",
+                "sqfs_frag_table_create": "fragtblCreate", "sqfs_block_processor_create_ex": "procCreate",
+                "sqfs_id_table_create": "idtblCreate", "sqfs_xattr_writer_create": "xwrCreate", "sqfs_meta_writer_create": "imCreate",
+                "sqfs_dir_writer_create": "dirwrCreate"}
+FINISH_CALLEES = {"sqfs_block_processor_finish": "procFinish", "sqfs_serialize_fstree": "serialize", "sqfs_frag_table_write": "fragTable",
+                  "sqfs_dir_writer_write_export_table": "exportWrite", "sqfs_id_table_write": "idTable",
+                  "sqfs_xattr_writer_flush": "xattrFlush", "sqfs_super_write": "superRewrite", "padd_sqfs": "pad"}
+GEN_MAIN_CALLEES = {"selinux_open_context_file": "selinuxOpen", "xattr_open_map_file": "xattrMapOpen", "sqfs_istream_open_file": "sortfileOpen",
+                    "dir_tree_iterator_create": "dirIterCreate", "scan_directory": "scanDir", "fstree_from_file": "fstreeFromFile",
+                    "fstree_post_process": "postProcess", "apply_xattrs": "applyXattrs", "fstree_sort_files": "sortFiles"}
+T2S_MAIN_CALLEES = {"istream_open_stdin": "openStdin", "tar_open_stream": "tarOpen", "fstree_post_process": "postProcess"}
+SHIM_FN = re.compile(r"^(vf_|__wrap_|__interceptor|backtrace|__sanitizer)")
+
+
+def project_frames(frames):
+    return [(fn, loc) for fn, loc in frames if fn != "??" and not SHIM_FN.match(fn) and "shim_fault" not in loc]
+
+
+def locate(case, frames, stdout):
+    """(model site or None, step function used in finding keys)"""
+    fr = project_frames(frames)
+    fns = [f for f, _ in fr]
+
+    def callee(of):
+        i = fns.index(of)
+        return fns[i - 1] if i > 0 else of
+
+    def inner_match(table, upto):
+        # innermost-first scan of the frames below `upto` for a function of the table
+        i = fns.index(upto)
+        for f in reversed(fns[:i]):
+            if f in table:
+                return table[f]
+        return None
+    if not fns:
+        return None, "?"
+    if case.tool not in ("gensquashfs", "tar2sqfs"):
+        return None, (callee("main") if "main" in fns else fns[0])
+    if "sqfs_writer_cfg_init" in fns or "process_command_line" in fns or "process_args" in fns:
+        return None, callee("sqfs_writer_cfg_init") if "sqfs_writer_cfg_init" in fns else fns[0]
+    npack = len([l for l in stdout.splitlines() if l.startswith("packing ") or l.startswith("Packing ") or l.startswith("Hard link ")])
+    nmodel = case.model[2]
+    if "sqfs_writer_init" in fns:
+        if "sqfs_file_open_handle" in fns:
+            return "openHandle", "sqfs_writer_init"
+        return inner_match(INIT_CALLEES, "sqfs_writer_init") or ("cmpOptions" if any(f.endswith("_write_options") for f in fns) else None), "sqfs_writer_init"
+    if "sqfs_writer_finish" in fns:
+        if "set_block_size" in fns and "process_completed_fragment" in fns:
+            return "sparseTail:0", "process_completed_fragment"
+        if "add_export_table_entry" in fns and "sqfs_dir_writer_write_export_table" in fns:
+            return "exportAddRoot", "sqfs_dir_writer_write_export_table"
+        return inner_match(FINISH_CALLEES, "sqfs_writer_finish"), callee("sqfs_writer_finish")
+    if "sqfs_writer_cleanup" in fns:
+        return None, "sqfs_writer_cleanup"
+    if "set_block_size" in fns and "process_completed_fragment" in fns:
+        return "sparseTail:0", "process_completed_fragment"
+    if case.tool == "gensquashfs":
+        if "pack_files" in fns or "pack_file" in fns:
+            return "packFile:%d" % max(0, min(npack - 1, nmodel - 1)), "pack_files"
+        if "main" in fns:
+            return inner_match(GEN_MAIN_CALLEES, "main"), callee("main")
+    else:
+        if "process_tarball" in fns:
+            inner = any(f in fns for f in ("create_node_and_repack_data", "set_root_attribs", "write_file", "copy_xattr"))
+            i = fns.index("process_tarball")
+            rl = i > 0 and fns[i - 1] in ("it_read_link", "read_link")
+            idx = max(0, min(npack, nmodel - 1))
+            return ("tarEntry:%d" % idx) if (inner or rl) else ("tarNext:%d" % idx), "process_tarball"
+        if "main" in fns:
+            return inner_match(T2S_MAIN_CALLEES, "main"), callee("main")
+    return None, fns[0]
+
+
+def real_msgs(stdout):
+    out = []
+    for l in stdout.splitlines():
+        for text, tag in FIN_MSGS:
+            if l.strip() == text:
+                out.append(tag)
+    return ",".join(out) if out else "-"
+
+
+def parse_model(line):
+    return dict(kv.split("=", 1) for kv in line.split())
+
+
+def verdict_py(o):
+    """mirror of Sqfs.FailStop.Spec.verdict (cross-checked against the Lean definition on every observation)"""
+    if o["crashed"]:
+        return "crash"
+    if o["exit0"]:
+        return "ok" if o["same"] else "exit0-different-output"
+    if o["packer"] and o["left"]:
+        return "failure-output-left"
+    if not o["diag"]:
+        return "failure-no-diagnostic"
+    return "ok"
+
+
+def observe(case, base, r):
+    packer = case.out_kind == "file"
+    crashed = r["timeout"] or r["rc"] < 0 or r["rc"] >= 90
+    return {"crashed": crashed, "exit0": r["rc"] == 0, "diag": bool(r["stderr"].strip()), "packer": packer,
+            "left": packer and r["out"] != "absent", "same": r["out"] == base["out"]}
+
+
+def cls_group(cls):
+    return "alloc" if cls in ALLOC_CLASSES else cls
+
+
+# ------------------------------------------------------------------------------------------------ enumeration
+def plan_faults(ctx, case, base, exhaustive, sample_n):
+    jobs = []
+    for cls in SYS_CLASSES:
+        for side in ("in", "out"):
+            n = base["report"]["count"].get((cls, side), 0)
+            for k in range(1, n + 1):
+                kinds = KINDS if cls == "write" else ["EIO", "EINTR"]
+                for kind in kinds:
+                    jobs.append({"cls": cls, "k": k, "side": side, "kind": kind})
+    for cls in ALLOC_CLASSES:
+        n = base["report"]["count"].get((cls, "in"), 0)
+        for k in range(1, n + 1):
+            jobs.append({"cls": cls, "k": k})
+    if not exhaustive and len(jobs) > sample_n:
+        # keep every syscall position with kind EIO, sample the rest
+        keep = [j for j in jobs if j.get("kind") == "EIO"]
+        rest = [j for j in jobs if j.get("kind") != "EIO"]
+        ctx.rng.shuffle(rest)
+        jobs = keep + rest[:max(0, sample_n - len(keep))]
+    return jobs
+
+
+class Dedup:
+    """one VIOLATION / KNOWN-FINDING per key and run; further hits of the same key are counted"""
+
+    def __init__(self, ctx):
+        self.ctx, self.count = ctx, {}
+
+    def __call__(self, key, what, replay, found_input=True):
+        self.count[key] = self.count.get(key, 0) + 1
+        if self.count[key] == 1:
+            self.ctx.violation(key, what, replay, found_input)
+
+
+def run(ctx):
+    report = Dedup(ctx)
+    ok, problems = vlib.proof_gate(ctx, MODULE, REQUIRED)
+    if not ok:
+        ctx.violation("proof:C13", "proof obligations of C13 no longer check: " + " | ".join(problems)[:1500],
+                      {"broken": problems, "theorems_file": "lean/Sqfs/Props/C13.lean"}, found_input=False)
+    tools = build_tools(ctx)
+    env = ctx.san_env()
+    work = ctx.scratch / "w"
+    work.mkdir()
+    scale = 1 if ctx.quick() else 4
+    cases = gen_cases(ctx, ctx.scratch / "in", random_for(ctx.seed), tools, scale=scale, jobs="1")
+    nworkers = 6 if ctx.quick() else max(6, vlib.NCPU - 2)
+    stats = {"runs": 0, "fired": 0, "verdicts": {}, "by_case": {}, "post_fault_output_writes": {}, "model_compared": 0,
+             "model_sites": {}, "tolerated": 0}
+    distinct, samples, monitor_lines, monitor_expect = set(), [], [], []
+    corr_bad = 0
+    for case in cases:
+        exe = tools[case.tool]
+        base = run_case(case, exe, work / "base", None, env_base=env, timeout=120)
+        if base["rc"] != 0 or base["out"] == "absent":
+            report("base:" + case.name, "fault-free run of %s fails: rc=%s %s" % (case.name, base["rc"], base["stderr"][-300:]),
+                          {"case": case.name, "argv": case.argv}, found_input=False)
+            continue
+        base2 = run_case(case, exe, work / "base2", None, env_base=env, timeout=120)
+        if base2["out"] != base["out"]:
+            report("nondet:" + case.name, "two fault-free runs of %s differ" % case.name, {"case": case.name}, found_input=False)
+            continue
+        if case.name == "gen-many":
+            jobs = [{"cls": "realloc", "k": k} for k in range(1, base["report"]["count"].get(("realloc", "in"), 0) + 1)]
+        else:
+            jobs = plan_faults(ctx, case, base, exhaustive=True, sample_n=0)
+        model_ff = None
+        if case.model:
+            mt, mf, mn, ms = case.model
+            model_ff = parse_model(ctx.driver(["c13"], "run fix %s %s %d %d -\n" % (mt, mf, mn, ms))[0])
+            if model_ff["msgs"] != real_msgs(base["stdout"]) or model_ff["status"] != "0":
+                report("corr:faultfree:" + case.name, "fault-free progress trace differs: model %s, real %s" % (model_ff["msgs"], real_msgs(base["stdout"])),
+                              {"case": case.name, "correspondence": "Sqfs.FailStop.run (fault-free) vs stdout of " + case.tool}, found_input=False)
+
+        def one(i, case=case, exe=exe, jobs=jobs):
+            return jobs[i], run_case(case, exe, work / ("%s_%d" % (case.name, i)), jobs[i], env_base=env)
+        results = []
+        with concurrent.futures.ThreadPoolExecutor(nworkers) as ex:
+            for f, r in ex.map(one, range(len(jobs))):
+                results.append((f, r))
+        cstat = stats["by_case"].setdefault(case.name, {"faults": len(jobs), "fired": 0, "verdicts": {}})
+        model_queries, pending = [], []
+        for f, r in results:
+            stats["runs"] += 1
+            if not r["report"]["fired"] and not r["timeout"]:
+                # position beyond what this (failing earlier / shorter) run reaches: cannot happen for single faults
+                report("infra:notfired:%s:%s" % (case.name, f["cls"]), "fault %s did not fire in %s" % (f, case.name), {"case": case.name, "fault": f}, found_input=False)
+                continue
+            stats["fired"] += 1
+            cstat["fired"] += 1
+            o = observe(case, base, r)
+            v = verdict_py(o)
+            monitor_lines.append("monitor %d %d %d %d %d %d" % tuple(int(o[k]) for k in ("crashed", "exit0", "diag", "packer", "left", "same")))
+            monitor_expect.append(v)
+            frames = resolve_bt(exe, r["report"]["bt"])
+            site, stepfn = locate(case, frames, r["stdout"])
+            pf = project_frames(frames)
+            inner = pf[0][0] if pf else "?"
+            distinct.add((case.tool, cls_group(f["cls"]), inner, pf[1][0] if len(pf) > 1 else ""))
+            tag = v if v != "ok" else ("ok-same" if o["exit0"] else "ok-failed-clean")
+            stats["verdicts"][tag] = stats["verdicts"].get(tag, 0) + 1
+            cstat["verdicts"][tag] = cstat["verdicts"].get(tag, 0) + 1
+            if case.out_kind == "file" and not o["exit0"] and f.get("kind") != "EINTR":
+                pw = str(r["report"].get("post", 0))
+                stats["post_fault_output_writes"][pw] = stats["post_fault_output_writes"].get(pw, 0) + 1
+            if len(samples) < 12 and (v != "ok" or stats["runs"] % 97 == 0):
+                samples.append({"case": case.name, "fault": f, "verdict": v, "rc": r["rc"], "site": site, "innermost": inner,
+                                "stderr": r["stderr"].strip()[-160:]})
+            replay = {"case": case.name, "fault": f, "input_seed": ctx.seed, "scale": scale, "rc": r["rc"], "verdict": v,
+                      "backtrace": ["%s@%s" % x for x in pf[:8]], "stderr": r["stderr"][-600:]}
+            key = "%s:%s:%s@%s" % (case.tool, cls_group(f["cls"]), v, stepfn)
+            pending.append((f, r, o, v, site, stepfn, key, replay))
+            if case.model and site is not None and not (o["exit0"] and o["same"]):
+                model_queries.append((len(pending) - 1, site))
+        # model predictions for the located sites (both variants)
+        pred = {}
+        if model_queries:
+            mt, mf, mn, ms = case.model
+            sites = sorted({s for _, s in model_queries})
+            lines = []
+            for s in sites:
+                lines.append("run fix %s %s %d %d %s" % (mt, mf, mn, ms, s))
+                lines.append("run cur %s %s %d %d %s" % (mt, mf, mn, ms, s))
+            outl = ctx.driver(["c13"], "\n".join(lines) + "\n")
+            for j, s in enumerate(sites):
+                pred[s] = (outl[2 * j], outl[2 * j + 1])
+        qidx = dict(model_queries)
+        for idx, (f, r, o, v, site, stepfn, key, replay) in enumerate(pending):
+            explained = False
+            if o["exit0"] and o["same"]:
+                stats["tolerated"] += 1
+                if model_ff is not None and real_msgs(r["stdout"]) != model_ff["msgs"]:
+                    corr_bad += 1
+                    report("corr:msgs:" + key, "exit 0 but progress trace differs from the model's fault-free trace", replay, found_input=False)
+            elif idx in qidx:
+                stats["model_compared"] += 1
+                stats["model_sites"][site.split(":")[0]] = stats["model_sites"].get(site.split(":")[0], 0) + 1
+                if pred[site][0] == "bad-op":
+                    corr_bad += 1
+                    report("corr:site:" + key, "site %s located from the backtrace is not in the model's program for %s" % (site, case.name), replay, found_input=False)
+                else:
+                    mfix, mcur = parse_model(pred[site][0]), parse_model(pred[site][1])
+
+                    def agrees(m):
+                        if (m["status"] == "0") != o["exit0"]:
+                            return False
+                        if o["exit0"] and (m["damaged"] == "1") != (not o["same"]):
+                            return False
+                        if (m["out"] == "present") != o["left"] and not o["crashed"]:
+                            return False
+                        if not site.startswith("sparseTail") and not o["crashed"] and m["msgs"] != real_msgs(r["stdout"]):
+                            return False
+                        return True
+                    if o["crashed"]:
+                        pass
+                    elif agrees(mfix):
+                        explained = True
+                    elif agrees(mcur):
+                        explained = True          # the modelled (witnessed) defect: reported below through the oracle
+                        if v == "ok":
+                            corr_bad += 1
+                            report("corr:cur:" + key, "real run matches the model of the pinned source but the oracle is silent", replay, found_input=False)
+                    else:
+                        corr_bad += 1
+                        report("corr:" + key, "outcome of a fault at site %s differs from both models: real exit0=%s left=%s same=%s msgs=%s; model(fixed) %s; model(pinned) %s"
+                                      % (site, o["exit0"], o["left"], o["same"], real_msgs(r["stdout"]), pred[site][0], pred[site][1]),
+                                      dict(replay, model_fixed=pred[site][0], model_pinned=pred[site][1]), found_input=False)
+            if v != "ok":
+                what = {"crash": "crashes / hangs / sanitizer report", "exit0-different-output": "exits 0 with an output that differs from the fault-free run",
+                        "failure-output-left": "fails but leaves its partial output file behind", "failure-no-diagnostic": "fails without any diagnostic on stderr"}[v]
+                report(key, "%s %s when the %s call #%d (%s) fails in %s [%s]" % (case.tool, what, f["cls"], f["k"], f.get("kind", "NULL"), stepfn,
+                                                                                    " <- ".join(x.split("@")[0] for x in replay["backtrace"][:4])), replay)
+    # the Lean specification evaluated on every observation must agree with the Python mirror used above
+    if monitor_lines:
+        uniq = sorted(set(zip(monitor_lines, monitor_expect)))
+        got = ctx.driver(["c13"], "\n".join(l for l, _ in uniq) + "\n")
+        for (l, e), g in zip(uniq, got):
+            if g != e:
+                report("infra:monitor", "Spec.verdict (Lean) = %s but the runner computed %s on %s" % (g, e, l), {"line": l}, found_input=False)
+    ctx.cov.update({
+        "evaluations": stats["runs"],
+        "distinct_nontrivial": len(distinct),
+        "rule": "every single fault position of every class (write/read/trunc/open/lseek/fsync/close × in/out × EIO/EINTR-then-error(/ENOSPC for writes); "
+                "malloc/calloc/realloc/strdup by project code) found by a counting run, for gensquashfs (-F and -D), tar2sqfs, sqfs2tar (plain and gzip), "
+                "rdsquashfs -u and -c on a generated input (duplicate, fragment, all-zero tails, sparse blocks, hard link, xattrs, export table); "
+                "gen-many: every realloc position on a 513-inode tree; non-trivial = distinct (tool, class, innermost two project frames) at which a fault fired",
+        "exhaustive": True,
+        "samples": samples,
+        "disagreements_checked": corr_bad,
+        "violation_keys": report.count,
+        "histogram": stats,
+        "workers": nworkers, "input_scale": scale,
+    })
+    return ctx.finish(LEVEL, trusted_extra=[
+        "harness/shim_fault.c (link-time syscall wrappers, allocation renames) and tools/checks/c13.py (backtrace → model site table, oracle mirror) are trusted",
+        "modelled, not verified: the call order of main/sqfs_writer_init/sqfs_writer_finish and which results are checked; propagation through the glue below a site "
+        "is established only by the enumeration (complete per input, not for all inputs)"],
+        assumptions=["faults are single (one failing call per run; EINTR kind = EINTR then EIO on the retry)", "third-party libraries' own allocations and the kernel are not faulted"])
+
+
+def random_for(seed):
+    import random
+    return random.Random("C13-input/%d" % seed)
+
+
+def replay(ctx, path):
+    body = json.loads(open(path).read())
+    rp = body.get("replay", {})
+    if "fault" not in rp:
+        print("replay file names a broken obligation, no input to replay:", json.dumps(rp)[:500])
+        return 1
+    tools = build_tools(ctx)
+    env = ctx.san_env()
+    cases = gen_cases(ctx, ctx.scratch / "in", random_for(rp.get("input_seed", 0)), tools, scale=rp.get("scale", 1))
+    case = [c for c in cases if c.name == rp["case"]][0]
+    exe = tools[case.tool]
+    base = run_case(case, exe, ctx.scratch / "w" / "base", None, env_base=env, timeout=120)
+    r = run_case(case, exe, ctx.scratch / "w" / "r", rp["fault"], env_base=env)
+    o = observe(case, base, r)
+    v = verdict_py(o)
+    frames = project_frames(resolve_bt(exe, r["report"]["bt"]))
+    print("case   :", case.name, case.tool, " ".join(case.argv))
+    print("fault  :", rp["fault"], "fired:", r["report"]["fired"])
+    print("at     :", " <- ".join("%s@%s" % x for x in frames[:8]))
+    print("exit   :", r["rc"], "timeout" if r["timeout"] else "")
+    print("output :", r["out"][:16], "(fault-free %s)" % base["out"][:16])
+    print("stderr :", r["stderr"].strip()[-400:])
+    print("verdict:", v)
+    return 0 if v == "ok" else 1
